@@ -645,7 +645,7 @@ func TestVerif_C17(t *testing.T) {
 		}
 	}
 	rng := vRand()
-	n := vN(120, 2000)
+	n := vN(70, 1000)
 	for i := 0; i < n; i++ {
 		var texts []c17Text
 		for j, m := 0, 1+rng.Intn(3); j < m; j++ {
